@@ -566,6 +566,52 @@ impl Admin {
     }
 }
 
+/// A bank as banks were before the seven-point curve: its stored interest configuration is rewritten
+/// (account bytes) to the legacy three-point form, interest accrues on it for a while, then anybody
+/// migrates it. The C18 monitor judges the migrated curve (usable, and the same curve: zero at no
+/// utilisation, the plateau rate at the optimal utilisation, the maximum rate at full utilisation).
+pub async fn legacy_curve_migration(w: &mut World, m: &mut Mon, r: &mut R, g: usize) {
+    let banks: Vec<usize> = (0..w.banks.len()).filter(|b| w.banks[*b].group == g && w.banks[*b].venue.is_none()).collect();
+    if banks.is_empty() {
+        return;
+    }
+    let b = pick(r, &banks);
+    let bk = w.banks[b].key;
+    let acc = match w.shadow.get(&bk) {
+        Some(a) => a.clone(),
+        None => return,
+    };
+    let mut data = acc.data.clone();
+    {
+        let bank: &mut Bank = bytemuck::from_bytes_mut(&mut data[8..8 + std::mem::size_of::<Bank>()]);
+        let c = &mut bank.config.interest_rate_config;
+        let opt = pick(r, &[0.05f64, 0.5, 0.8, 0.85, 0.999]);
+        let plateau = pick(r, &[0.0001f64, 0.05, 0.1, 1.0, 3.0]);
+        let max = plateau * pick(r, &[1.0001f64, 2.0, 3.0]) + pick(r, &[0.0f64, 0.5, 5.0]);
+        c.optimal_utilization_rate = wi(opt);
+        c.plateau_interest_rate = wi(plateau);
+        c.max_interest_rate = wi(max.min(9.99));
+        c.zero_util_rate = 0;
+        c.hundred_util_rate = 0;
+        c.points = make_points(&[]);
+        c.curve_type = INTEREST_CURVE_LEGACY;
+    }
+    w.plant(&bk, solana_sdk::account::Account { lamports: acc.lamports, data, owner: acc.owner, executable: false, rent_epoch: 0 });
+    m.r.count("admin.legacy_curve_banks_planted");
+    for _ in 0..r.gen_range(0..3) {
+        w.chain.advance(pick(r, &[60i64, 86_400]));
+        w.refresh_oracles();
+        let i = w.ix_accrue(b);
+        let _ = w.exec(m, &[i], &[]).await;
+    }
+    let o = w.exec(m, &[ix::migrate_curve(bk)], &[]).await;
+    m.r.count(if o.ok() { "admin.legacy_curve_migrations_accepted" } else { "admin.legacy_curve_migrations_refused" });
+    // a second migration changes nothing
+    let _ = w.exec(m, &[ix::migrate_curve(bk)], &[]).await;
+    let i = w.ix_accrue(b);
+    let _ = w.exec(m, &[i], &[]).await;
+}
+
 /// The global fee admin moves the program's fee wallet and nobody tells the groups (their cached
 /// copy of the fee state still names the old wallet): fee collection must pay the program's share
 /// to the token account of the wallet the fee state names now, and to no other. The wallet is put
